@@ -601,6 +601,18 @@ static void iauth_xquery_config_service(const char *name, const char *type)
 
     /* If not, add it. */
     if (ii == iauth_xquery_services.used) {
+        /* Each client tracks its services in 32-bit masks, one bit
+         * per slot; a service in a slot beyond that would share its
+         * bit with another one.
+         */
+        for (ii = 0; ii < iauth_xquery_services.used; ++ii)
+            if (!iauth_xquery_services.vec[ii])
+                break;
+        if (ii >= 32) {
+            log_message(iauth_xquery_log, LOG_ERROR, "Too many XQUERY services (at most 32): ignoring %s", name);
+            return;
+        }
+
         stats.n_srv_allocs++;
         srv = xmalloc(sizeof(*srv) + strlen(name));
         strcpy(srv->name, name);
